@@ -33,7 +33,7 @@ for p in props:
 
 manifest = {
     "version": 1,
-    "setup_cmd": "cd /verif/harness && CARGO_NET_OFFLINE=true cargo build --profile verif -p props -p vsync && /verif/tools/build_jaq.sh",
+    "setup_cmd": "cd /verif/harness && CARGO_NET_OFFLINE=true cargo build --profile verif -p props && CARGO_NET_OFFLINE=true cargo build --profile verif -p vsync && /verif/tools/build_jaq.sh",
     "hooks": {
         "guard": "jaq_verif",
         "enable": "no hooks are needed: every check observes jaq through its public library API, the jaq binary, the system-call boundary and the file system; the guard name is reserved and unused",
